@@ -2,6 +2,7 @@ package rules
 
 import (
 	"fmt"
+	"go/ast"
 	"go/constant"
 	"go/token"
 	"go/types"
@@ -3885,4 +3886,173 @@ func sharedEnumSync(c *an.Ctx, rule, pkgA, pkgB, prefix string) {
 				"no case for "+strings.Join(missing, ", ")+": the default branch panics")
 		}
 	}
+}
+
+// sharedShadowedResult is the rule for named results: inside a function with
+// named results, a short variable declaration in a nested scope that declares
+// a new variable with the name of a result hides the result; a bare "return
+// <name>" (or naked return) after that scope returns the result variable, which
+// was never assigned -- the verdict computed into the inner variable is lost.
+// The rule reports the case where the function also returns that result by
+// name outside the inner scope.  It works on the type-checked syntax tree.
+// Returns the number of functions with named results examined.
+func sharedShadowedResult(c *an.Ctx, rule string, prefixes ...string) (examined int) {
+	for _, pkg := range c.Prog.Pkgs {
+		pp := an.Short(pkg.PkgPath)
+		in := false
+		for _, p := range prefixes {
+			if strings.HasPrefix(pp, strings.TrimSuffix(p, ".")) {
+				in = true
+			}
+		}
+		if !in || pkg.TypesInfo == nil || strings.HasSuffix(pkg.Name, "test") {
+			continue
+		}
+		for _, file := range pkg.Syntax {
+			fname := c.Prog.Fset.Position(file.Pos()).Filename
+			if strings.HasSuffix(fname, "_test.go") || strings.HasSuffix(fname, ".pb.go") {
+				continue
+			}
+			for _, decl := range file.Decls {
+				fd, ok := decl.(*ast.FuncDecl)
+				if !ok || fd.Body == nil || fd.Type.Results == nil {
+					continue
+				}
+				results := map[string]types.Object{}
+				for _, f := range fd.Type.Results.List {
+					for _, n := range f.Names {
+						if n.Name != "_" {
+							results[n.Name] = pkg.TypesInfo.Defs[n]
+						}
+					}
+				}
+				if len(results) == 0 {
+					continue
+				}
+				examined++
+				name := fd.Name.Name
+				if fd.Recv != nil && len(fd.Recv.List) == 1 {
+					name = types.ExprString(fd.Recv.List[0].Type) + "." + name
+				}
+				key := pp + "." + name
+				ast.Inspect(fd.Body, func(n ast.Node) bool {
+					as, ok := n.(*ast.AssignStmt)
+					if !ok || as.Tok != token.DEFINE {
+						return true
+					}
+					for _, lhs := range as.Lhs {
+						id, ok := lhs.(*ast.Ident)
+						if !ok {
+							continue
+						}
+						res, isRes := results[id.Name]
+						obj := pkg.TypesInfo.Defs[id]
+						if !isRes || obj == nil || obj == res {
+							continue
+						}
+						// a new variable hides result id.Name within obj's scope; is the result itself
+						// returned by name (or by a naked return) outside that scope?
+						scope := obj.Parent()
+						hidden := false
+						ast.Inspect(fd.Body, func(m ast.Node) bool {
+							ret, ok := m.(*ast.ReturnStmt)
+							if !ok {
+								return true
+							}
+							if scope != nil && scope.Contains(ret.Pos()) {
+								return true
+							}
+							if len(ret.Results) == 0 {
+								hidden = true
+							}
+							for _, r := range ret.Results {
+								if rid, ok := r.(*ast.Ident); ok && pkg.TypesInfo.Uses[rid] == res {
+									hidden = true
+								}
+							}
+							return true
+						})
+						// an inner variable of another type (err of a nested call handled locally) is the usual
+						// harmless idiom only when the result is assigned elsewhere; keep to same-typed shadows
+						if hidden && types.Identical(obj.Type(), res.Type()) && !isErrorType(res.Type()) {
+							c.Bad(rule, key+" result "+id.Name+" is not shadowed", as.Pos(),
+								"a new variable %s declared with := hides the named result of the same name; the function returns the result by name outside that scope, where it still has its zero value", id.Name)
+						}
+					}
+					return true
+				})
+			}
+		}
+	}
+	return examined
+}
+
+
+// sharedCharRanges is the boundary rule for hand-written ASCII classes: a
+// comparison of a byte or rune with one of the class boundaries 'A', 'Z', 'a',
+// 'z', '0', '9' must be the inclusive form on the inside of the class
+// (c >= 'A', c <= 'Z', …) or its exact complement (c < 'A', c > 'Z', …).  A
+// strict comparison on the inside (c < 'Z', c > 'a') leaves the boundary letter
+// out of the class.  Returns the number of comparisons examined.
+func sharedCharRanges(c *an.Ctx, rule string, prefixes ...string) (examined int) {
+	lower := map[int64]bool{'A': true, 'a': true, '0': true}
+	upper := map[int64]bool{'Z': true, 'z': true, '9': true}
+	for _, fn := range c.AllFns {
+		if fn.Blocks == nil || c.IsTestFile(fn.Pos()) || strings.Contains(c.Pos(fn.Pos()), ".pb.go:") {
+			continue
+		}
+		k := an.FnKey(fn)
+		in := false
+		for _, p := range prefixes {
+			if strings.HasPrefix(k, p) {
+				in = true
+			}
+		}
+		if !in {
+			continue
+		}
+		if pkg := an.FnPkg(fn); pkg != nil && strings.HasSuffix(pkg.Name(), "test") {
+			continue
+		}
+		an.Instrs(fn, func(ins ssa.Instruction) {
+			bo, ok := ins.(*ssa.BinOp)
+			if !ok {
+				return
+			}
+			op := bo.Op
+			if op != token.LSS && op != token.LEQ && op != token.GTR && op != token.GEQ {
+				return
+			}
+			x := bo.X
+			kv, isK := an.ConstInt(bo.Y)
+			if !isK {
+				kv, isK = an.ConstInt(bo.X)
+				x = bo.Y
+				switch op {
+				case token.LSS:
+					op = token.GTR
+				case token.GTR:
+					op = token.LSS
+				case token.LEQ:
+					op = token.GEQ
+				case token.GEQ:
+					op = token.LEQ
+				}
+			}
+			if !isK || (!lower[kv] && !upper[kv]) {
+				return
+			}
+			b, isB := x.Type().Underlying().(*types.Basic)
+			if !isB || (b.Kind() != types.Uint8 && b.Kind() != types.Int32) {
+				return
+			}
+			examined++
+			c.Analysed(k)
+			good := lower[kv] && (op == token.GEQ || op == token.LSS) || upper[kv] && (op == token.LEQ || op == token.GTR)
+			c.Check(good, rule, fmt.Sprintf("%s compares a character with %q", k, rune(kv)), bo.Pos(),
+				"inclusive on the inside of the class",
+				fmt.Sprintf("the comparison c %s %q leaves the boundary character %q out of (or lets a neighbour into) the class", op, rune(kv), rune(kv)))
+		})
+	}
+	return examined
 }
